@@ -16,7 +16,7 @@ from __future__ import annotations
 
 import ast
 
-from ..facts import atoms, call_is, meth_is, strip
+from ..facts import digest_parts, cases, simplify, atoms, call_is, meth_is, strip
 from ..model import AnalysisError, norm
 from ..retry import Explorer
 from ..terms import is_const, show, subterms, summarize
@@ -55,24 +55,60 @@ def run(ctx):
     st = summarize(prog, sg).return_term()
     up, dp = sg.params[1], sg.params[2]
     appkey = prog.fold_or_none(prog.cls(f"{NH}._Security").attrs.get("APP_KEY"), prog.module(CL), prog.cls(f"{NH}._Security"))
-    want = ("call", ("meth", ("call", ("ext", "hashlib.sha256"), (("call", ("meth", ("bin", "+", ("bin", "+",
-            ("attr", ("call", ("ext", "urllib.parse.urlparse"), (("param", up),), ()), "path"),
-            ("call", ("ext", "urllib.parse.unquote_plus"), (("call", ("ext", "urllib.parse.urlencode"), (("call", ("ext", "sorted"), (("call", ("meth", ("param", dp), "items"), (), ()),), ()),), ()),), ())),
-            ("const", appkey)), "encode"), (("const", "ASCII"),), ()),), ()), "hexdigest"), (), ())
+    def hexdigest_parts(t):
+        """(alg, hashed parts) of X.hexdigest() / X.digest().hex() for the hashlib spellings digest_parts knows"""
+        t = strip(t)
+        if meth_is(t, "hex") and not t[2]:
+            return digest_parts(strip(t[1][1]))
+        return digest_parts(t) if meth_is(t, "hexdigest") else None
+
+    def text_of(b):
+        """the text whose ASCII encoding b is: m.encode("ASCII") / bytes(m, "ASCII")"""
+        if b[0] == "call" and b[1][0] == "meth" and b[1][2] == "encode" and b[2] == (("const", "ASCII"),):
+            return b[1][1]
+        if b[0] == "call" and b[1] == ("ext", "bytes") and len(b[2]) == 2 and b[2][1] == ("const", "ASCII"):
+            return b[2][0]
+        return None
+
+    def concat(x, out):
+        x = strip(x)
+        if x[0] == "bin" and x[1] == "+":
+            concat(x[2], out), concat(x[3], out)
+        elif x[0] == "fstr":
+            for y in x[1]:
+                concat(y, out)
+        else:
+            out.append(x)
+        return out
+    hp = hexdigest_parts(st)
+    msg = text_of(hp[1][0]) if hp is not None and hp[0] == "sha256" and len(hp[1]) == 1 else None
+    want_parts = [("attr", ("call", ("ext", "urllib.parse.urlparse"), (("param", up),), ()), "path"),
+                  ("call", ("ext", "urllib.parse.unquote_plus"), (("call", ("ext", "urllib.parse.urlencode"), (("call", ("ext", "sorted"), (("call", ("meth", ("param", dp), "items"), (), ()),), ()),), ()),), ()),
+                  ("const", appkey)]
+    st, want = (concat(msg, []) if msg is not None else None), want_parts
     ctx.ob("C19.a", sg.qual, st == want and appkey == "3742e9e5842d4ad59c2db887e12449f9", "sign = sha256(path ‖ unquote_plus(urlencode(sorted(items))) ‖ APP_KEY).hexdigest()",
-           func=sg.qual, file=file, construct="sign", detail={"term": show(st)[:260]}, fail=f"the request signature is computed as `{show(st)[:200]}`")
+           func=sg.qual, file=file, construct="sign", detail={"hashed_text_parts": [show(x)[:80] for x in (st or [])]},
+           fail=f"the request signature is not sha256 over path ‖ sorted query ‖ APP_KEY: hashes `{[show(x)[:60] for x in (st or [])]}`")
     epw = ctx.fn(f"{NH}._Security.encrypt_password")
     et = summarize(prog, epw).return_term()
     lp, pp = epw.params[1], epw.params[2]
-    wantp = ("call", ("meth", ("call", ("ext", "hashlib.sha256"), (("call", ("meth", ("bin", "+", ("bin", "+", ("param", lp),
-             ("call", ("meth", ("call", ("ext", "hashlib.sha256"), (("call", ("meth", ("param", pp), "encode"), (("const", "ASCII"),), ()),), ()), "hexdigest"), (), ())),
-             ("const", appkey)), "encode"), (("const", "ASCII"),), ()),), ()), "hexdigest"), (), ())
+    # outer = sha256(loginId ‖ inner ‖ APP_KEY).hex with inner = sha256(password).hex, whichever hashlib spelling is used
+    def sha_hex_text(t):
+        h = hexdigest_parts(t)
+        return text_of(h[1][0]) if h is not None and h[0] == "sha256" and len(h[1]) == 1 else None
+    outer = sha_hex_text(et)
+    oparts = concat(outer, []) if outer is not None else []
+    inner = sha_hex_text(oparts[1]) if len(oparts) == 3 else None
+    et_norm = (oparts[0], strip(inner) if inner is not None else None, oparts[2]) if len(oparts) == 3 else None
+    et, wantp = et_norm if et_norm is not None else et, (("param", lp), ("param", pp), ("const", appkey))
     ctx.ob("C19.a", epw.qual, et == wantp, "password field = sha256(loginId ‖ sha256(password).hex ‖ APP_KEY).hex", func=epw.qual, file=file, construct="encrypt_password",
            detail={"term": show(et)[:260]}, fail=f"the login password derivation is `{show(et)[:200]}`")
     bb = ctx.fn(f"{NH}._build_request_body")
     bt = summarize(prog, bb).return_term()
-    bb_ok = bt[0] == "mut" and bt[1] == "update" and call_is(bt[2], f"{BASE}._build_request_body") and bt[3] == (("param", bb.params[1]),) and \
-        any(x[0] == "dict" and any(k == ("const", "sessionId") and strip(v) == ("attr", ("param", bb.params[0]), "_session_id") for k, v in x[1]) for x in subterms(bt[2]))
+    # body.update(data) / body |= data / {**body, **data}: the caller's fields are merged over the base body
+    mg = (bt[2], bt[3]) if bt[0] == "mut" and bt[1] == "update" else ((bt[2], (bt[3],)) if bt[0] == "bin" and bt[1] == "|" else None)
+    bb_ok = mg is not None and call_is(mg[0], f"{BASE}._build_request_body") and tuple(strip(x) for x in mg[1]) == (("param", bb.params[1]),) and \
+        any(x[0] == "dict" and any(k == ("const", "sessionId") and strip(v) == ("attr", ("param", bb.params[0]), "_session_id") for k, v in x[1]) for x in subterms(mg[0]))
     ctx.ob("C19.a", bb.qual, bb_ok, "every request body carries sessionId = self._session_id plus the caller's fields", func=bb.qual, file=file, construct="_build_request_body",
            detail={"term": show(bt)[:200]}, fail="request bodies no longer carry the stored session id and the caller's fields")
     b0 = ctx.fn(f"{BASE}._build_request_body")
@@ -82,7 +118,7 @@ def run(ctx):
         if x[0] == "dict":
             keys |= {k[1] for k, _v in x[1] if k[0] == "const"}
     stamp_ok = "stamp" in keys and any(call_is(x, f"{BASE}._timestamp") for x in subterms(b0t)) and {"appId", "src", "format", "clientType", "language", "deviceId"} <= keys
-    ctx.ob("C19.a", b0.qual, stamp_ok and b0t[0] == "mut" and b0t[1] == "update", "base body carries appId/src/format/clientType/language/deviceId/stamp and the caller's fields",
+    ctx.ob("C19.a", b0.qual, stamp_ok and ((b0t[0] == "mut" and b0t[1] == "update") or (b0t[0] == "bin" and b0t[1] == "|")), "base body carries appId/src/format/clientType/language/deviceId/stamp and the caller's fields",
            func=b0.qual, file=file, construct="BaseCloud._build_request_body", detail={"keys": sorted(keys)}, fail=f"base request body fields changed: {sorted(keys)}")
     lg = ctx.fn(f"{NH}.login")
     ls = summarize(prog, lg)
@@ -109,16 +145,21 @@ def run(ctx):
         if node is None:
             continue
         n_ret += 1
-        facts = atoms(pc)
-        ok = False
-        detail = {"returns": show(t)[:200], "facts": [show(f)[:120] for f in facts]}
-        if t[0] == "tuple" and len(t[1]) == 2:
-            a, b = strip(t[1][0]), strip(t[1][1])
-            if a[0] == "sub" and b[0] == "sub" and a[2] == ("const", "token") and b[2] == ("const", "key") and a[1] == b[1] and strip(a[1])[0] == "iter":
-                elem = a[1]
-                ok = any(f[0] == "cmp" and f[1] == "==" and {strip(f[2]), strip(f[3])} == {("sub", elem, ("const", "udpId")), ("param", up)} for f in facts)
-                lst = strip(strip(elem)[1])
-                ok = ok and lst[0] == "sub" and lst[2] == ("const", "tokenlist")
+        ok = True
+        detail = {"returns": show(t)[:200], "facts": [show(f)[:120] for f in atoms(pc)]}
+        # every case of the path condition (a search helper's Optional result arrives as a gated value): the value returned in
+        # that case is the (token, key) of the entry that the case compared equal to the requested udpid
+        for facts in cases(pc):
+            tc = strip(simplify(t, facts))
+            ok_case = False
+            if tc[0] == "tuple" and len(tc[1]) == 2:
+                a, b = strip(tc[1][0]), strip(tc[1][1])
+                if a[0] == "sub" and b[0] == "sub" and a[2] == ("const", "token") and b[2] == ("const", "key") and a[1] == b[1] and strip(a[1])[0] == "iter":
+                    elem = a[1]
+                    ok_case = any(f[0] == "cmp" and f[1] == "==" and {strip(f[2]), strip(f[3])} == {("sub", elem, ("const", "udpId")), ("param", up)} for f in facts)
+                    lst = strip(strip(elem)[1])
+                    ok_case = ok_case and lst[0] == "sub" and lst[2] == ("const", "tokenlist")
+            ok = ok and ok_case
         ctx.ob("C19.b", gt.qual, ok, "returned (token, key) belong to the list entry whose udpId == the requested udpid", func=gt.qual, file=file, node=node, detail=detail,
                fail="get_token can return credentials of an entry that was not compared equal to the requested udpid (substring / first entry / other element)")
     ctx.count("token_returns", n_ret)
@@ -177,12 +218,13 @@ def run(ctx):
     ads = summarize(prog, ad)
     dv = ad.params[1]
     fors = [n for n in ast.walk(ad.node) if isinstance(n, ast.For)]
-    ok_iter = len(fors) == 1 and prog.fold_or_none(fors[0].iter, ad.module) == ["little", "big"]
+    it_v = prog.fold_or_none(fors[0].iter, ad.module) if len(fors) == 1 else None
+    ok_iter = isinstance(it_v, (list, tuple)) and list(it_v) == ["little", "big"]          # (a list or a tuple, literal or named)
     ctx.ob("C19.d", ad.qual, ok_iter, 'the device id is tried in exactly ["little", "big"] byte order', func=ad.qual, file=ad.module.rel, construct="for endian in [...]",
            fail="not both byte orders of the device id are tried")
     if ok_iter:
         lp = fors[0]
-        endian = ("iter", ("list", (("const", "little"), ("const", "big"))))
+        endian = ("iter", ads.ta.terms_at.get(lp.iter))          # this iteration's element of the byte-order collection
         auth_calls = [(n, ads.ta.terms_at[n]) for n in ast.walk(lp) if isinstance(n, ast.Call) and isinstance(n.func, ast.Attribute) and n.func.attr == "authenticate" and n in ads.ta.terms_at]
         ctx.count("auth_sites", len(auth_calls))
         for n, t in auth_calls:
